@@ -154,6 +154,9 @@ func genHistory(t *rapid.T, maxLen int, garbageCtl bool) hCase {
 	c.Script.LMTPSession = c.Cfg.LMTP && rapid.Bool().Draw(t, "lmtpsession")
 	c.Script.AuthSession = rapid.IntRange(0, 3).Draw(t, "authsession") != 0
 	c.Script.Mechs = []string{"PLAIN"}
+	// the delivery goroutine of a chunked transfer starts only when the
+	// command loop has to wait for it (late start, owned by the harness)
+	c.Script.GateStart = rapid.Bool().Draw(t, "gate_start")
 	for i := 0; i < 3; i++ {
 		c.Script.NewSession = append(c.Script.NewSession, genDecision(t, "d_newsession"))
 	}
@@ -339,6 +342,12 @@ func runLockstep(c hCase) hRun {
 	nev := 0
 	take := func(sr *stepRec) bool {
 		st := w.WaitQuiet()
+		for i := 0; st == harness.QGate && i < 8; i++ {
+			// a parked delivery (start gate) that the command loop now waits
+			// for: let it run
+			r.B.ReleaseArrived()
+			st = w.WaitQuiet()
+		}
 		out := w.Recv()
 		sr.Raw = append(sr.Raw, out...)
 		evs := r.B.Events()
